@@ -242,9 +242,17 @@ CLAIMED['C11'] = dict(
          'it - is on that server with the recorded expiry and identity), C11_reload_touches_nothing_else (nothing '
          'unrecorded is placed), the decision table of restore_placement (C11_healthy_restored_verbatim, '
          '_restore_never_invents, _nothing_unrecorded, _rebooted_server_not_verbatim) and C11_duplicates_dropped. '
-         'Partial: composition over Loader.servers and the earlier load_model steps are decided by the oracle on the '
-         'real load_model() after every restart of every generated history, and by the correspondence of every '
-         'restore_placement call.',
+         'Composition over Loader.servers (Master/RestoreAll*.v, RestoreDupP.v, built by a sub-agent): '
+         'C11_reload_all_servers (every node healthy at its turn whose instance is recorded under no other server ends '
+         'on its server with the recorded expiry and identity; an instance with no node anywhere is untouched; the '
+         'pairs handed to the duplicate pass are exactly the restored ones), C11_restore_placements_healthy / '
+         '_nothing_unrecorded (the same after the duplicate pass), C11_duplicate_removed_from_both (an instance '
+         'restored under two servers ends on no server, is listed by neither, both nodes are deleted), '
+         'C11_reload_accounting (after the whole load every server\'s free vector and affinity counters match what it '
+         'lists), C11_remove_all_idle. The master-level model now performs the second put of a doubly recorded '
+         'instance as Python does (the scheduler model\'s put_guard refuses an already placed instance; '
+         'restore_placements is the one call site where that matters). Left to the oracle on the real load_model(): '
+         'load_servers / load_apps / load_identity_groups before the restore.',
     note=MASTER_NOTE + ' Server.restore/put answers are taken from the implementation in the correspondence and from '
          'Sched/Tree.v in RestoreSchedP.v; the oracle skips over-committed servers and doubly recorded instances.',
     technique='Rocq proof (frame lemmas over Sched primitives, fold over a server\'s nodes) + oracle and '
